@@ -31,7 +31,10 @@ SOURCES = ['bugfix/TEST-12-fix', 'feature/TEST-7', 'improvement/test-33-low',
            'dependabot/npm/lodash-4.17', 'bug/TEST-44', 'design/RING-3',
            # foreign projects whose key is a fragment of a configured one
            'bugfix/TES-5-fragment', 'feature/T-1', 'bugfix/EST-8',
-           'improvement/RIN-2', 'bugfix/ING-6', 'feature/TEST_X-4']
+           'improvement/RIN-2', 'bugfix/ING-6', 'feature/TEST_X-4',
+           # a ticket number followed by other digits / punctuation
+           'bugfix/TEST-12.1-retry', 'bugfix/TEST-7.2', 'feature/TEST-12_3',
+           'bugfix/TEST-122-x']
 TYPES = ['Bug', 'Story', 'Improvement', 'Epic', 'Task']
 FAIL = ('MissingJiraId', 'JiraIssueNotFound', 'IncorrectJiraProject',
         'IssueTypeNotSupported', 'IncorrectFixVersion')
